@@ -44,7 +44,8 @@ def engines : List (String × Engine) := [
   ("presence", PresenceEngine.engine),
   ("proto", ProtoEngine.engine),
   ("fdoc", FDocEngine.engine), ("json", JsonEngine.engine),
-  ("pubsub", PubSubEngine.engine), ("pubsubstress", PubSubEngine.engine), ("tree", TreeEngine.engine), ("conc", ConcEngine.engine), ("srv", SrvEngine.engine)
+  ("pubsub", PubSubEngine.engine), ("pubsubstress", PubSubEngine.engine), ("tree", TreeEngine.engine), ("conc", ConcEngine.engine), ("srv", SrvEngine.engine),
+  ("compact", ProtoEngine.X.engine), ("faults", ProtoEngine.X.engine)
 ]
 
 partial def loop (e : Engine) (h : IO.FS.Stream) (out : IO.FS.Stream) (st : e.State) : IO Unit := do
